@@ -46,18 +46,25 @@ def get_sdr_chunk_helper(send_fn, req, reserve_fn, retry=5):
     return rsp
 
 
-def get_sdr_data_helper(reserve_fn, get_fn, record_id, reservation_id=None):
+def get_sdr_data_helper(reserve_fn, get_fn, record_id, reservation_id=None,
+                        with_reservation=False):
     """Helper function to retrieve the sdr data.
 
     A specified helper function is used to retrieve the chunks.
 
     This can be used for SDRs from the Sensor Device or form the SDR
     repository.
+
+    `get_fn` returns (next_id, data, reservation_id): the reservation ID is
+    the one it finally used, i.e. a new one if the reservation got canceled
+    (a CompletionCodeError it raises carries it as `reservation_id`); it is
+    used for all following requests. With `with_reservation=True` it is
+    returned as third element, for the request of the next record.
     """
     if reservation_id is None:
         reservation_id = reserve_fn()
 
-    (next_id, data) = get_fn(reservation_id, record_id, 0, 5)
+    (next_id, data, reservation_id) = get_fn(reservation_id, record_id, 0, 5)
 
     header = ByteBuffer(data)
     record_id = header.pop_unsigned_int(2)
@@ -82,13 +89,16 @@ def get_sdr_data_helper(reserve_fn, get_fn, record_id, reservation_id=None):
             length = record_length - offset
 
         try:
-            (next_id, data) = get_fn(reservation_id, record_id, offset, length)
+            (next_id, data, reservation_id) = get_fn(reservation_id, record_id,
+                                                     offset, length)
         except CompletionCodeError as e:
             if e.cc == constants.CC_CANT_RET_NUM_REQ_BYTES:
                 # reduce max length
                 max_req_len -= 4
                 if max_req_len <= 0:
                     raise RetryError()
+                # the reservation may have been renewed before the refusal
+                reservation_id = getattr(e, 'reservation_id', reservation_id)
                 continue
             else:
                 raise CompletionCodeError(e.cc)
@@ -98,6 +108,8 @@ def get_sdr_data_helper(reserve_fn, get_fn, record_id, reservation_id=None):
         if len(record_data) >= record_length:
             break
 
+    if with_reservation:
+        return (next_id, record_data, reservation_id)
     return (next_id, record_data)
 
 
